@@ -222,6 +222,18 @@ def module_cases(pos, rng, pools, nnest):
             for op in ("==", "<"):
                 for a in pool[:4]:
                     out.append(FC.Case(pos, "bool", ["bin", op, FC.typed(ty, a), FC.typed(ty, pool[1])]))
+    # operands that are NAMED typed module constants (evalConstantIdent), negative values included: the value of a
+    # named i32 constant must enter the enclosing expression sign-extended
+    if pos in ("modconst", "modconstT", "switch"):
+        for ty, vals in (("i32", [-7, -1, 5, -2147483647, 2147483647, 0]), ("u32", [7, 0, 4294967295, 2147483648])):
+            for op in ARITH + SHIFT + (["==", "<"] if pos == "modconst" else []):
+                for a in vals:
+                    for b in ([1, 2, 3] if op in SHIFT else ([2, 3] if ty == "u32" else [2, 3, -2])):
+                        bb = FC.u32(b) if op in SHIFT else FC.typed(ty, b)
+                        rt = "bool" if op in ("==", "<") else ty
+                        out.append(FC.Case(pos, rt, ["bin", op, ["named", ty, FC.typed(ty, a)], bb]))
+                        if op not in SHIFT:
+                            out.append(FC.Case(pos, rt, ["bin", op, bb, ["named", ty, FC.typed(ty, a)]]))
     out += nested_cases(pos, rng, nnest, pools, module=True)
     return out
 
